@@ -711,8 +711,8 @@ Section CompositeReenc.
     destruct (size_in_root sz n).
     - match goal with |- (let* r := ?root in _) = _ -> _ => destruct root as [r|] eqn:Er; [|discriminate] end.
       rewrite (Hroot r eq_refl). auto.
-    - destruct (enc_len_single n); [|discriminate]. cbn [bind].
-      destruct (enc_all (encT elem) vs) as [body|] eqn:Eb; [|discriminate]. rewrite (Hall _ eq_refl). auto.
+    - destruct (enc_frag (frag_fuel vs) (encT elem) vs) as [r|] eqn:Ef; [|discriminate].
+      rewrite (Hfrag _ eq_refl). auto.
   Qed.
 
   (** CHOICE *)
